@@ -273,6 +273,13 @@ func checkC04(c *Ctx) {
 					if ref == ssa.Instruction(wrap) {
 						continue
 					}
+					// a helper of the package that only looks at the buffer (Len / Cap / String / Available on its
+					// parameter, nothing else: no store, no further call with it) - e.g. the extracted read-error report
+					if hc, isCall := ref.(*ssa.Call); isCall {
+						if hf := helperCallee(h, &hc.Call); hf != nil && onlyObservesBuffer(hf, hc, buf) {
+							continue
+						}
+					}
 					okUses = false
 					r.Bad("C04.1", "handleNewTCPConn: receive buffer escapes into "+shortName(pathOfCallee(cc)), ref.Pos(), fnName(h), "unreviewed escape of the accumulation buffer")
 				}
@@ -1071,4 +1078,38 @@ func depConnTypesRejectingDeadlines(c *Ctx, ifacePkg string) (bool, string, erro
 	}
 	depConnMemo[pkgPath] = [3]string{map[bool]string{true: "1", false: "0"}[bad], which, ""}
 	return bad, which, nil
+}
+
+
+// onlyObservesBuffer: in helper hf, the parameter that receives buf at this call is used only as the receiver of
+// non-mutating bytes.Buffer observers.
+func onlyObservesBuffer(hf *ssa.Function, call *ssa.Call, buf ssa.Value) bool {
+	idx := -1
+	for i, a := range call.Call.Args {
+		if a == buf {
+			idx = i
+		}
+	}
+	if idx < 0 || idx >= len(hf.Params) {
+		return false
+	}
+	prm := hf.Params[idx]
+	if prm.Referrers() == nil {
+		return true
+	}
+	for _, ref := range *prm.Referrers() {
+		if _, isDbg := ref.(*ssa.DebugRef); isDbg {
+			continue
+		}
+		ci, ok := ref.(*ssa.Call)
+		if !ok || recvOf(&ci.Call) != ssa.Value(prm) {
+			return false
+		}
+		switch calleeShort(&ci.Call) {
+		case "Len", "Cap", "String", "Available":
+		default:
+			return false
+		}
+	}
+	return true
 }
